@@ -69,6 +69,10 @@ func ParseKern(src []byte) (Kern, int, error) {
 		return Kern{}, 0, fmt.Errorf("unsupported kern table version: %d", major)
 	}
 
+	// each subtable has at least a 6 bytes header
+	if uint64(len(src)) < 6*uint64(numTables) {
+		return Kern{}, 0, fmt.Errorf("reading Kern: "+"EOF: expected length: %d, got %d", 6*uint64(numTables), len(src))
+	}
 	out := make([]KernSubtable, numTables)
 	var (
 		err    error
